@@ -243,9 +243,27 @@ func c20Faithful(c *Ctx) {
 			return
 		}
 		good := true
-		for _, o := range origins(s.X) {
+		for _, o := range c.originsDeep(s.X, 0) {
 			if o.Kind == "call" && o.Call == ssa.CallInstruction(ra) && o.Index == 0 {
 				continue
+			}
+			if o.Kind == "param" {
+				// inside a prefixing helper: its parameter is the bytes read
+				if c.allUp(o.Value, func(u ssa.Value) bool {
+					for _, uo := range origins(u) {
+						if !(uo.Kind == "call" && uo.Call == ssa.CallInstruction(ra) && uo.Index == 0) {
+							if uo.Kind == "call" {
+								if b, ok := uo.Call.Common().Value.(*ssa.Builtin); ok && b.Name() == "append" {
+									continue
+								}
+							}
+							return false
+						}
+					}
+					return true
+				}) {
+					continue
+				}
 			}
 			if o.Kind == "call" {
 				if b, ok := o.Call.Common().Value.(*ssa.Builtin); ok && b.Name() == "append" {
@@ -318,7 +336,79 @@ func c20Faithful(c *Ctx) {
 		c.Check(same, rule, "KdcProxyMsg tags", msgT.Obj().Pos(), "kerb-message [0], target-domain [1] OPTIONAL, dclocator-hint [2] OPTIONAL as in MS-KKDCP", "the ASN.1 tags of KDC-PROXY-MESSAGE differ from MS-KKDCP")
 	}
 	c.Floor(rule, 6, "writes, reply, send, encode, tags")
-	_ = nW
+	if nW == 0 {
+		// the write sits in a helper that is handed the message and the protocol: send(conn, proto, data)
+		for _, ci := range callsIn(fw) {
+			hc, ok := ci.(*ssa.Call)
+			if !ok {
+				continue
+			}
+			h := hc.Call.StaticCallee()
+			if h == nil || !IsFirstParty(h) || h.Blocks == nil {
+				continue
+			}
+			var dp *ssa.Parameter
+			for j, a := range hc.Call.Args {
+				if a == ssa.Value(data) && j < len(h.Params) {
+					dp = h.Params[j]
+				}
+			}
+			if dp == nil {
+				continue
+			}
+			isProto := func(v ssa.Value) bool {
+				if _, f, ok := fieldLoad(strip(v)); ok && f.Name() == "Proto" {
+					return true
+				}
+				pp, ok := strip(v).(*ssa.Parameter)
+				return ok && pp.Parent() == h && pp.Type().String() == "string"
+			}
+			isTCPc := func(v ssa.Value) bool { s, ok := constString(v); return ok && s == "tcp" }
+			for _, cj := range callsIn(h) {
+				w, ok := cj.(*ssa.Call)
+				if !ok || !w.Call.IsInvoke() || w.Call.Method.Name() != "Write" {
+					continue
+				}
+				nW++
+				good := true
+				var cut *ssa.Slice
+				vals := []ssa.Value{w.Call.Args[0]}
+				if phi, ok := w.Call.Args[0].(*ssa.Phi); ok {
+					vals = phi.Edges
+				}
+				for _, v := range vals {
+					switch x := v.(type) {
+					case *ssa.Parameter:
+						if x != dp {
+							good = false
+						}
+					case *ssa.Slice:
+						k, _ := constInt(x.Low)
+						if x.X != ssa.Value(dp) || x.Low == nil || k != 4 || x.High != nil {
+							good = false
+						}
+						cut = x
+					default:
+						good = false
+					}
+				}
+				if good && cut != nil {
+					// the prefix is removed exactly for non-TCP KDCs
+					if ok1, _ := mustPass(h, cut, GNeq(isProto, isTCPc)); !ok1 {
+						good = false
+					}
+					if reachWithoutMarkerAvoiding(h, w, func(in ssa.Instruction) bool { return in == ssa.Instruction(cut) }, GEq(isProto, isTCPc)) {
+						good = false
+					}
+				}
+				c.Check(good && cut != nil, rule, "forward tcp-write", w.Pos(), "a TCP KDC receives exactly the embedded Kerberos message", "the bytes written to a TCP KDC are not the decoded message unchanged")
+				c.Check(good && cut != nil, rule, "forward udp-write", w.Pos(), "a UDP KDC receives the message without its 4-byte length prefix", "the bytes written to a UDP KDC are not the message minus its 4-byte length prefix")
+			}
+		}
+	}
+	if nW == 0 {
+		c.Undecided(rule, "forward writes", fw.Pos(), "no write of the message to a KDC connection found")
+	}
 }
 
 func c20BoundedIO(c *Ctx) {
@@ -596,6 +686,23 @@ func c20ConfigSource(c *Ctx) {
 		hasParam := false
 		good := true
 		why := ""
+		// cmp.Or(configured, systemDefault): the first non-empty, i.e. the configured path when set
+		if oc, ok := strip(arg(ci, 0)).(*ssa.Call); ok {
+			if f := oc.Call.StaticCallee(); f != nil {
+				o := f.Origin()
+				if o == nil {
+					o = f
+				}
+				if o.Pkg != nil && o.Pkg.Pkg.Path() == "cmp" && o.Name() == "Or" {
+					if elems, okE := sliceLitElems(oc.Call.Args[0]); okE && len(elems) == 2 && strip(elems[0]) == ssa.Value(p) {
+						if _, isC := constString(elems[1]); isC {
+							c.OK(rule, "InitKdcProxy Load", ci.Pos(), "krb5 configuration loaded from cmp.Or(configured path, system default)")
+							continue
+						}
+					}
+				}
+			}
+		}
 		for _, o := range origins(arg(ci, 0)) {
 			switch o.Kind {
 			case "param":
